@@ -223,6 +223,16 @@ def run(tier, seed):
     extra.append({"id": "after_run_ops", "script": [rid_resp, rid_resp, rid_resp], "input": "third",
                   "pre": [{"do": "post_message_wait", "content": "first"}, {"do": "rotate"}, {"do": "post_message_wait", "content": "second"},
                           {"do": "checkpoint_last_message"}, {"do": "rotate"}, {"do": "auto"}, {"do": "schedule"}], "_thread": None})
+    # provider HTTP errors whose body is long and made of multi-byte characters at every alignment (whatever the code does with the
+    # body - echo, cap, summarise - the run must still end)
+    for status in (500, 502):
+        for nm, ch in (("2byte", "é"), ("3byte", "漢"), ("4byte", "😀")):
+            for pad in range(len(ch.encode())):
+                if status == 502 and pad > 0 and not thorough:
+                    continue
+                extra.append({"id": f"http{status}_body_{nm}_pad{pad}", "script": [{"status": status, "content_type": "text/plain; charset=utf-8", "chunks": ["x" * pad + ch * 24000]}],
+                              "input": "hello", "_thread": None})
+    extra.append({"id": "http500_body_invalid_utf8", "script": [{"status": 500, "content_type": "application/octet-stream", "chunks": [{"hex": "ff" * 5000 + "c3"}]}], "input": "hello", "_thread": None})
     for e in extra:
         e.setdefault("linked", True)
         e.setdefault("timeout_ms", 20000)
